@@ -416,6 +416,8 @@ def run(ctx):
               name="real runs: outcomes x configs")
     ctx.sweep(run_case, (c for c in runcases.fault_cases(ctx.tier) if small(c, 3)), chunk=48,
               name="real runs: hook/cleanup faults")
+    ctx.sweep(run_case, (c for c in runcases.nonpass_fault_cases(ctx.tier) if small(c, 3)), chunk=48,
+              name="real runs: one non-passing step, then a hook fault at every invocation")
     ctx.sweep(probe_case, (c for c in runcases.step_cases(ctx.tier) if P.size(c[0][0]) <= (3 if ctx.quick else 5)
                            and c[1] in ("default", "stop", "tags_t")), chunk=48,
               name="real runs with .status read from hooks and steps")
